@@ -4,6 +4,7 @@ go 1.23
 
 require (
 	github.com/andybalholm/brotli v1.0.3
+	github.com/dustin/go-humanize v1.0.0
 	github.com/golang/snappy v0.0.3
 	github.com/klauspost/compress v1.13.1
 	github.com/pierrec/lz4 v2.6.1+incompatible
@@ -25,7 +26,6 @@ require (
 	github.com/dgraph-io/ristretto v0.0.4-0.20210309073149-3836124cdc5a // indirect
 	github.com/dgrijalva/jwt-go v3.2.0+incompatible // indirect
 	github.com/dgryski/go-rendezvous v0.0.0-20200823014737-9f7001d12a5f // indirect
-	github.com/dustin/go-humanize v1.0.0 // indirect
 	github.com/fsnotify/fsnotify v1.4.9 // indirect
 	github.com/go-playground/locales v0.13.0 // indirect
 	github.com/go-playground/universal-translator v0.17.0 // indirect
